@@ -65,7 +65,7 @@ class CVRPH(Harness):
         pre = []
         if self.coords is None:
             coords = ctx.fresh_arr(tag + ".coordinates", (n + 1, 2), F32)
-            pre += [S.fp_in(x, 0.0, 1.0) for x in coords.a.reshape(-1)]
+            pre += [S.fp_in(x, 0.0, 1.0, tiny=2.0 ** -24) for x in coords.a.reshape(-1)]
         else:
             coords = SV(self.coords, F32)
         demands = ctx.fresh_arr(tag + ".demands", (n + 1,), np.int32, 0, self.maxd)
